@@ -49,6 +49,18 @@ def int_class(v):
     return "intbig"
 
 
+def int_encoded_len(v):
+    """Length of the documented (narrowest-width) encoding of v."""
+    c = int_class(v)
+    if c == "int8":
+        return 1
+    if c == "int16":
+        return 3
+    if c == "int32":
+        return 5
+    return 2 + max(1, -(-(v.bit_length() + 1) // 8))
+
+
 #: values on both sides of every width boundary
 INT_BOUNDARY_VALUES = (
     0, -1, 252, 253, 32767, 32768, -32768, -32769,
@@ -170,7 +182,7 @@ def layout(scenario, data):
         pass
     covered = max((f.off + f.length for f in out), default=0)
     if covered < len(data):
-        out.append(Field(covered, len(data) - covered, "unparsed" if state["pos"] < len(data) and covered == state["pos"] else "unparsed"))
+        out.append(Field(covered, len(data) - covered, "unparsed"))
     return out, prims
 
 
